@@ -15,16 +15,17 @@ DEMOPKG=$(dirname $(grep '^+++ b/' $PATCH | head -1 | sed 's#+++ b/##'))
 DEMONAME=$(grep -o 'func Test[A-Za-z0-9_]*' $DEMO | head -1 | sed 's/func //')
 # every test function of the demonstration file (their failures are expected with the change)
 DEMOALL=$(grep -o 'func Test[A-Za-z0-9_]*' $DEMO | sed 's/func //' | paste -sd'|' | sed 's/|/\\|/g')
+DEMORUN=$(grep -o 'func Test[A-Za-z0-9_]*' $DEMO | sed 's/func //' | paste -sd'|')
 # make sure the worktree is exactly HEAD + patch + demo
 git checkout -q -- . ; git apply $PATCH || { echo "patch does not apply"; exit 2; }
 cp $DEMO $DEMOPKG/ 2>/dev/null
 echo "== module $MOD demo $DEMONAME in $DEMOPKG"
 ( cd $MOD && go vet ./... >/dev/null 2>&1; unshare -rn sh -c "ip link set lo up; go test -vet=off -count=1 ./... 2>&1" | grep -v "^ok\|no test files" | grep -v "$DEMOALL" | grep "^--- FAIL\|^FAIL" | grep -v "TestValidFlags" | head ) > /tmp/seed_base.txt
 BASE_FAIL_OTHER=$(grep -c "^--- FAIL" /tmp/seed_base.txt)
-( cd $DEMOPKG && go test -vet=off -count=1 -run "^\\($DEMOALL\\)\$" . 2>&1 | tail -3 ) > /tmp/seed_demo_with.txt
+( cd $DEMOPKG && go test -vet=off -count=1 -run "^($DEMORUN)\$" . 2>&1 | tail -3 ) > /tmp/seed_demo_with.txt
 WITH=$(grep -c "^FAIL\|--- FAIL" /tmp/seed_demo_with.txt)
 git apply -R $PATCH
-( cd $DEMOPKG && go test -vet=off -count=1 -run "^\\($DEMOALL\\)\$" . 2>&1 | tail -3 ) > /tmp/seed_demo_without.txt
+( cd $DEMOPKG && go test -vet=off -count=1 -run "^($DEMORUN)\$" . 2>&1 | tail -3 ) > /tmp/seed_demo_without.txt
 WITHOUT_OK=$(grep -c "^ok" /tmp/seed_demo_without.txt)
 git apply $PATCH
 echo "existing tests failing besides the demo: $BASE_FAIL_OTHER ; demo fails with change: $WITH ; demo passes without: $WITHOUT_OK"
